@@ -60,6 +60,8 @@ def run(ctx):
     # the same through GDB mode (`wl ...` commands typed while the program is halted, messages arriving as closures)
     from props import gdbbase
     gdbbase.gdb_batch(ctx, rep, relevant('C06'), ctx.pick(40, 400), 1000303)
+    # ... and as a real process in file mode
+    sessbase.process_batch(ctx, rep, ['msg'], ctx.pick(12, 120), 1000403)
     return rep
 
 
